@@ -1,0 +1,26 @@
+//go:build verif
+
+// Package verifhook exposes, for the external verification harness only (build tag `verif`),
+// the client recovery store of internal/types, which cannot be imported from outside this module.
+// Add-only: nothing here is compiled without the tag and no existing file is changed.
+package verifhook
+
+import (
+	storetypes "github.com/cosmos/cosmos-sdk/store/v2/types"
+
+	internaltypes "github.com/cosmos/ibc-go/modules/light-clients/08-wasm/v11/internal/types"
+)
+
+// NewClientRecoveryStore wraps internaltypes.NewClientRecoveryStore and returns it as a KVStore.
+func NewClientRecoveryStore(subjectStore, substituteStore storetypes.KVStore) storetypes.KVStore {
+	return internaltypes.NewClientRecoveryStore(subjectStore, substituteStore)
+}
+
+// SplitPrefix wraps internaltypes.SplitPrefix.
+func SplitPrefix(key []byte) ([]byte, []byte) {
+	return internaltypes.SplitPrefix(key)
+}
+
+// SubjectPrefix and SubstitutePrefix return copies of the routing prefixes.
+func SubjectPrefix() []byte    { return append([]byte(nil), internaltypes.SubjectPrefix...) }
+func SubstitutePrefix() []byte { return append([]byte(nil), internaltypes.SubstitutePrefix...) }
